@@ -10,7 +10,7 @@ Decided clauses:
 Not decided: text-block indentation stripping, number token values, maximal-munch operator clusters.
 """
 from . import chartab, kwalk, prov, cfg
-from .facts import callee_name, pk
+from .facts import callee_name, pk, AnchorMissing
 
 EXPLANATION = (
     "Static analysis of MIR. R3: the decoder is walked once per combination of interval classes of "
@@ -479,10 +479,88 @@ def rule_r4(F, rep):
     rep.floor(R, len(pushes), 4, "line-terminator appends in lex_text_block")
 
 
+ESCAPES = {0x22: 0x22, 0x27: 0x27, 0x5C: 0x5C, 0x2F: 0x2F, ord("b"): 8, ord("f"): 0xC, ord("n"): 0xA, ord("r"): 0xD, ord("t"): 9}
+
+
+def rule_r5(F, rep):
+    R = rep.rule("C14.R5", "escape sequences in quoted strings decode as the lexical grammar says: after a backslash, each of "
+                 "\" ' \\ / b f n r t yields exactly its character, `u` starts a code-unit escape, and every other byte is the "
+                 "InvalidEscapeInString error")
+    fn = F.fn("<%s>::lex_quoted_string" % LEXER)
+    rep.fn(fn)
+    body = fn.body
+    LEXERR = [q for q in F.adts if q.endswith("lexer::error::LexError") or q.endswith("lexer::LexError")]
+    delim_l = [l for l in range(2, body.argc + 1) if body.local_ty(l)["s"] == "u8"]
+    if not delim_l:
+        raise AnchorMissing("lex_quoted_string: delimiter parameter")
+    delim_l = delim_l[0]
+    n = 0
+    for e in list(range(0x20, 0x7F)) + [0x0A, 0x09, 0x80, 0xC3]:
+        if e == ord("u"):
+            continue
+        script = [0x5C, e, 0x22]
+
+        def hook(w, bb, t, env, args, script=script):
+            nme = callee_name(t) or ""
+            i = env.get("#pos", 0)
+            cur = script[i] if i < len(script) else None
+            if nme == "<%s>::eat_byte" % LEXER:
+                b = args[1] if len(args) > 1 else None
+                if isinstance(b, int) and cur is not None and b == cur:
+                    env["#pos"] = i + 1
+                    return 1
+                return 0 if isinstance(b, int) else None
+            if nme == "<%s>::eat_slice" % LEXER:
+                return 0
+            if nme == "<%s>::eat_any_char" % LEXER:
+                if cur is None:
+                    return ("var", "core::option::Option", "None")
+                env["#pos"] = i + 1
+                return ("var", "core::option::Option", "Some")
+            return None
+
+        def on_term(w, bb, t, env):
+            if t["k"] == "call":
+                nme = callee_name(t) or ""
+                if nme == "<alloc::string::String>::push":
+                    v = w.val(env, t["xs"][1])
+                    return ("push", v if isinstance(v, int) else "?")
+                if nme == "<%s>::commit_token" % LEXER:
+                    return kwalk.STOP
+            return None
+
+        def on_stmt(w, bb, idx, st, env):
+            if st["k"] == "assign" and st["rv"]["k"] == "agg" and st["rv"]["ak"] == "adt" and st["rv"]["adt"] in LEXERR:
+                return ("err", st["rv"]["v"])
+            return None
+        w = kwalk.Walker(F, body, call_result=hook, on_term=on_term, on_stmt=on_stmt, ordered_marks=True, want_ret=True)
+        outs = w.run(0, {str(delim_l): 0x22})
+        rep.states += w.states_explored
+        res = set()
+        for kind, marks, ret in outs:
+            if kind.startswith("diverge"):
+                continue
+            res.add((tuple(m[1] for m in marks if m[0] == "push"), tuple(m[1] for m in marks if m[0] == "err")))
+        if e in ESCAPES:
+            exp = {((ESCAPES[e],), ())}
+        else:
+            exp = {((), ("InvalidEscapeInString",))}
+        ok = res == exp
+        n += 1
+        rep.ob(R, "escape|%02X" % e, ok, {"after_backslash": chr(e) if 0x20 < e < 0x7F else hex(e), "outcome": sorted(map(str, res))}
+               if e in (ord("n"), ord("v"), 0x2F, ord("a")) else None)
+        if not ok:
+            rep.violation(R, "lex_quoted_string|escape|%02X" % e,
+                          "in a quoted string, backslash followed by %s gives %s; the lexical grammar says %s"
+                          % (repr(chr(e)), sorted(map(str, res)), sorted(map(str, exp))), fn.loc)
+    rep.floor(R, n, 90, "escape bytes")
+
+
 def run(F, rep, tier):
     rule_r3(F, rep)
     rule_r2(F, rep)
     rule_r1(F, rep)
     rule_r4(F, rep)
+    rule_r5(F, rep)
     rep.assume("text-block indentation stripping, number token values and operator maximal munch are behavioural and not decided")
     return EXPLANATION
